@@ -33,7 +33,8 @@ RULE = ("seeded cover-labelled networks of 1-6 motifs (K2-K4, C4, C5, diamond, p
         "scheduler-permuted vertex numbering, member order and edge insertion order (= message update schedule); "
         "iterations in 1..40; histories of 2-6 theoretical(phi) queries in arbitrary phi order (0, 1, grid values, "
         "repeats) on one object, each compared with a fresh object and with a reference fixed point; operand faults "
-        "abort a query mid-sweep; non-trivial = >= 2 motifs and >= 2 queries; distinct = distinct execution digests")
+        "abort a query mid-sweep; in a quarter of the histories the caller hangs a new single-edge motif on the network IN PLACE "
+        "between two queries and later queries are judged against the edited network; non-trivial = >= 2 motifs and >= 2 queries; distinct = distinct execution digests")
 ASSUMPTIONS = ["reference: own bookkeeping of motif membership, brute-force motif expectation, Jacobi sweeps to |delta| < 1e-13",
                "fixed-point comparison (1e-6) only when BOTH the in-place and the Jacobi reference are within 1e-9 of their limits "
                "after at most (iterations - 2) / 2 sweeps AND the two limits agree: on finite loopy covers the disciplines can "
@@ -221,6 +222,13 @@ def generate(prng, tier, index):
           "mono_grid": prng.random() < 0.35 and (tier == "thorough" or iters <= 8),
           "cover_type": prng.choice(("motif cover", "MPCC", "")),
           "set_order": prng.choice(("natural", "natural", "reversed", "rotated", "shuffled"))}
+    if nq >= 2 and prng.random() < 0.25:
+        # the caller edits the network IN PLACE between two queries on the same object: a new single-edge motif is hung on an
+        # existing vertex (edge-disjoint, shares one vertex); later queries are judged against the edited network
+        vs = sorted({v for m in net["motifs"] for v in m["verts"]})
+        top = max(vs + (net.get("isolated") or [0]))
+        sc["net_edit"] = {"query": prng.randrange(1, nq), "at": prng.choice(vs), "new": top + 7,
+                          "uid": max(m["uid"] for m in net["motifs"]) + 1}
     if variant == "faults":
         sc["fault"] = {"query": prng.randrange(nq), "at": prng.randrange(0, 400)}
         if prng.random() < 0.5:
@@ -369,6 +377,16 @@ def _execute(sc, ctx):
     faulted = False
     fault = sc.get("fault")
     for k, phi in enumerate(sc["queries"]):
+        ed = sc.get("net_edit")
+        if ed and ed["query"] == k:
+            a, b = ed["at"], ed["new"]
+            m = {"key": "2", "verts": [a, b], "edges": [[a, b]], "uid": ed["uid"]}
+            net = dict(net, motifs=net["motifs"] + [m])
+            G.add_edge(a, b, CoverLabel=f"2-{[a, b]}-{[(a, b)]}-{ed['uid']}")
+            ref = Reference(net)
+            uid_to_t = {mm["uid"]: t for t, mm in enumerate(net["motifs"])}
+            edge_order = [(uid_to_t[int(d["CoverLabel"].split("-")[-1])], (x, y)) for x, y, d in G.edges(data=True)]
+            ctx.probe("network_edited_in_place_between_queries")
         tag = f" (query #{k}, phi={phi}, iterations={iters}" + (", after an aborted query on this object)" if faulted else ")")
         if fault and fault["query"] == k and fault.get("line") is not None:
             st, _ = ctx.call(src, shared.theoretical, phi, abort_at_line=fault["line"], label="theoretical[interrupted at line]")
@@ -465,6 +483,8 @@ def nontrivial(sc, ctx):
 
 
 def shrink(sc):
+    if sc.get("net_edit"):
+        yield {k: v for k, v in sc.items() if k != "net_edit"}
     if sc.get("fault"):
         c = dict(sc)
         c.pop("fault")
